@@ -506,8 +506,7 @@ pub async fn execute(plan: Plan, dir: &Path) -> RunOutcome {
         tokio::task::yield_now().await;
         for i in 1..n_dev {
             let dst = dir.join(format!("d{i}"));
-            wait_sqlite_closed(&src);
-            if let Err(e) = copy_dir_all(&src, &dst) {
+            if let Err(e) = snapshot_dir(&src, &dst).await {
                 harness_err!(rec, plan, format!("copy device: {e}"));
             }
             match Device::open_existing(&format!("d{i}"), &dst, kind, account_id, password.clone()).await {
